@@ -41,7 +41,7 @@ ORCH = 'chainables.orchestrate'
 
 
 def run(ctx: Ctx):
-  for r in (r1, r2, r3, r4, r5, r6, r7, r8):
+  for r in (r1, r2, r3, r4, r5, r6, r7, r8, r9):
     ctx.guard(r)
 
 
@@ -868,12 +868,92 @@ def r8(ctx: Ctx):
   ctx.floor(rule, 1, n)
 
 
+def r9(ctx: Ctx):
+  rule = 'R-C20-9'
+  ctx.rule(rule, '"at most one pool owns a given worker": the ownership lock lives'
+           ' on the Worker object, and workers/clients/servers are looked up as'
+           ' singletons and dictionary keys by hash — so __hash__ may only'
+           ' depend on fields that are written once, in the constructor (no'
+           ' other method, property setter or outside code stores them);'
+           ' hashing a mutable configuration makes a second, equal twin with'
+           ' its own lock appear after the configuration changes')
+  repo = ctx.repo
+  n = 0
+  for mod in ('utils.courier_utils', 'chainables.courier_worker', 'chainables.courier_server'):
+    mi = repo.module(mod)
+    for ci in mi.classes.values():
+      hm = ci.methods.get('__hash__')
+      if hm is None:
+        continue
+      # only classes that are looked up as singletons by hash (the Worker family)
+      if not any('SingletonMeta' in unparse(k.value) for c_ in repo.mro(ci)
+                 for k in c_.node.keywords if k.arg == 'metaclass'):
+        continue
+      # fields the hash depends on (properties of the class expanded)
+      fields: set[str] = set()
+      todo = [hm]
+      seen = set()
+      delegated = False
+      while todo:
+        f = todo.pop()
+        if id(f.node) in seen:
+          continue
+        seen.add(id(f.node))
+        for x in ast.walk(f.node):
+          if is_self_attr(x):
+            pm = repo.find_method(ci, x.attr)
+            if pm is not None and pm.is_property:
+              todo.append(pm)
+            elif pm is None:
+              fields.add(x.attr)
+          if isinstance(x, ast.Call) and unparse(x.func) == 'super().__hash__':
+            delegated = True
+      if delegated and not fields:
+        continue
+      n += 1
+      mutable = []
+      for c_ in repo.mro(ci) + repo.subclasses(ci):
+        for m_ in c_.methods.values():
+          if m_.name in ('__init__', '__post_init__', '__new__'):
+            continue
+          for x in walk_no_nested(m_.node):
+            if isinstance(x, (ast.Assign, ast.AugAssign, ast.AnnAssign)):
+              tg = x.targets if isinstance(x, ast.Assign) else [x.target]
+              for t in tg:
+                if is_self_attr(t) and t.attr in fields:
+                  mutable.append((t.attr, f'{c_.name}.{m_.name}', x))
+      # outside stores `obj.<field> = ...`
+      for fi in repo.all_functions():
+        if fi.cls is not None and (fi.cls is ci or ci in repo.mro(fi.cls)):
+          continue
+        for x in ast.walk(fi.node):
+          if isinstance(x, ast.Assign):
+            for t in x.targets:
+              if isinstance(t, ast.Attribute) and not is_self_attr(t) and t.attr in fields and (
+                  t.attr.startswith('_') or t.attr in ('address', 'server_name')):
+                mutable.append((t.attr, fi.qualname, x))
+      if mutable:
+        f_, where, node = mutable[0]
+        ctx.fail(rule, hm, f'{ci.name}.__hash__ depends on write-once fields only',
+                 f'{ci.name}.__hash__ depends on `{f_}`, which {where} re-assigns after'
+                 ' construction: once it changes, the singleton/dictionary lookup by'
+                 ' hash misses the existing object and an equal twin is created —'
+                 ' with its own ownership lock, so two pools can hold "the same"'
+                 ' worker', node=node)
+      else:
+        ctx.ok(rule, hm, f'{ci.name}.__hash__ over write-once fields {sorted(fields)}', hm.node)
+  ctx.floor(rule, 1, n)
+
+
 from mlmverif.selfcheck import B, OK  # noqa: E402
 
 _U = 'utils/courier_utils.py'
 _W = 'chainables/courier_worker.py'
 _O = 'chainables/orchestrate.py'
 VARIANTS = [
+    B('client-hash-from-mutable-configs', _U,
+      '  def __hash__(self):\n    return hash(self.address)', '  def __hash__(self):\n    return hash(self.configs)',
+      'R-C20-9'),
     B('heartbeat-registers-stale-time', 'chainables/courier_server.py',
       '    self._last_heartbeat = time.time()\n    if not sender_addr:\n      return',
       '    if not sender_addr:\n      self._last_heartbeat = time.time()\n      return', 'R-C20-8'),
